@@ -103,6 +103,25 @@ pub fn worker(ctx: &mut WorkerCtx) {
             work.push((b1 + i, c.to_vec()));
         }
     });
+    // I/O, stores and moves around shifting at-most-once loops; loops around scans; idiom tokens
+    let bi = base;
+    base += spaces::space_i(3, &mut |i, c| {
+        if ctx.owns(bi + i) {
+            work.push((bi + i, c.to_vec()));
+        }
+    });
+    let bn = base;
+    base += spaces::space_n(false, 3, &mut |i, c| {
+        if ctx.owns(bn + i) {
+            work.push((bn + i, c.to_vec()));
+        }
+    });
+    let bb = base;
+    base += spaces::space_b(4, &mut |i, c| {
+        if ctx.owns(bb + i) {
+            work.push((bb + i, c.to_vec()));
+        }
+    });
     for (_, c) in spaces::space_k() {
         if ctx.owns(base) {
             work.push((base, c));
@@ -144,7 +163,9 @@ fn judge_program(ctx: &mut WorkerCtx, p: &Plan, code: &[u8]) {
                         ctx.count("create_failed", 1);
                         continue;
                     };
-                    for (script, canon) in &usable {
+                    let mut halt_ok: Option<&(Vec<u8>, Canon)> = None;
+                    for sc in &usable {
+                        let (script, canon) = sc;
                         let halt = canon.verdict == Verdict::Halt;
                         let steps_basis = if halt { canon.steps } else { canon.steps_to_cycle.max(1) };
                         let b0 = (steps_basis.saturating_mul(4).saturating_add(64)).min(1 << 26) as usize;
@@ -184,6 +205,9 @@ fn judge_program(ctx: &mut WorkerCtx, p: &Plan, code: &[u8]) {
                                     }
                                     if finished_at.is_none() {
                                         finished_at = Some(budget);
+                                        if halt_ok.is_none() {
+                                            halt_ok = Some(sc);
+                                        }
                                     }
                                 }
                                 Some(false) => {
@@ -259,6 +283,42 @@ fn judge_program(ctx: &mut WorkerCtx, p: &Plan, code: &[u8]) {
                             }
                         }
                     }
+                    // history: whether budgets are honoured must not depend on what the executor was used for
+                    // before. On a second executor: one plain `execute` of an input that halts (its limited twin
+                    // just finished with the complete trace), then limited runs of an input that diverges *while printing* (so that
+                    // a run that ignores its budget ends at the sink's cap instead of hanging the worker).
+                    if let (Some((hs, hc)), Some((cs, cc))) = (halt_ok, usable.iter().find(|(_, c)| c.verdict == Verdict::Cycle && c.cyc > 0).map(|x| (&x.0, &x.1))) {
+                        if let Ok(comp2) = compile(backend, w, level, text) {
+                            let (rh, _) = diff::run_logged(&comp2, Mode::Execute, hs, hc.trace.len() + 4, Arm::default());
+                            ctx.count("executions", 1);
+                            if rh.panicked.is_none() {
+                                for budget in [0usize, 2, 64] {
+                                    ctx.count("executions", 1);
+                                    ctx.count("history_runs", 1);
+                                    let cap = cc.trace.len() + (budget + 2) * code.len() + 64;
+                                    let (r, log) = diff::run_logged(&comp2, Mode::Limited(budget), cs, cap, Arm::default());
+                                    let mk = |class: &str, detail: &str, first: usize| Failure {
+                                        class: class.into(),
+                                        mode: format!("execute-then-limited:{budget}"),
+                                        observed: diff::trace_str(&log[..log.len().min(64)]),
+                                        expected: diff::trace_str(&cc.trace[..cc.trace.len().min(64)]),
+                                        first_diff: first,
+                                        detail: format!("{detail} (after a plain execute of input {} on the same executor)", diff::script_hex(hs)),
+                                    };
+                                    if r.finished == Some(true) {
+                                        ctx.fail(failure_json("C07", backend, w, level, &code, cs, &mk("finished-divergent", "reports finished for a canonically divergent program", 0)));
+                                        break;
+                                    } else if let Some(i) = is_prefix_of_canon(&log, cc) {
+                                        ctx.fail(failure_json("C07", backend, w, level, &code, cs, &mk("interrupted-not-prefix", "interrupted run is not a prefix of the canonical sequence", i)));
+                                        break;
+                                    } else if log.len() >= cap {
+                                        ctx.fail(failure_json("C07", backend, w, level, &code, cs, &mk("not-bounded-by-budget", "more events than any run within this budget can produce", log.len())));
+                                        break;
+                                    }
+                                }
+                            }
+                        }
+                    }
                 }
             }
             ctx.sample(|| {
@@ -281,12 +341,14 @@ pub fn info(tier: Tier) -> CheckInfo {
         id: "C07",
         level: "model_checking",
         rule: format!(
-            "Bounded exhaustive: every balanced program of A(len<={}), S(1,{}), the regression corpus and K, at each width, over the input \
+            "Bounded exhaustive: every balanced program of A(len<={}), S(1,{}), I(3) (loops around shifting at-most-once loops with I/O), N(3) (loops around scans), B(4) (idiom tokens), the regression corpus and K, at each width, over the input \
              choice tree (depth {}), whose canonical run halts or provably cycles (exact state repetition) within {} steps; each is run \
              through execute_limited on all four backends and levels 0..3 at every budget of a ladder (0,1,2,3, Fibonacci up to \
              B0=4*steps+64, then x16 up to 4096*B0 for halting / {} for cyclic programs) and, for halting programs, at 2^62. Oracle \
              (metric-agnostic): finished => complete canonical trace; interrupted => prefix of the canonical (periodic) stream; a \
-             cyclic program never finishes; finished at b implies finished at every larger rung; 2^62 => finished. states = choice-tree \
+             cyclic program never finishes; 2^62 => finished. History: on a second executor one plain execute of an input that \
+             halts, then execute_limited(0/2/64) of an input that diverges while printing: same oracle, and no more events than the \
+             budget allows (what an executor was used for before must not decide whether budgets are honoured). states = choice-tree \
              nodes, transitions = I/O actions compared.",
             p.a_len, p.s_k, p.depth, p.step_cap, p.cycle_top
         ),
